@@ -183,14 +183,15 @@ static void op_ip(char** tok, int n) {
 }
 
 static void op_na(char** tok, int n) {
-  int dyn, lim, off;
+  int dyn, lim, off, actn;
   double f[15];
-  if (n != 19 || !parse_i(tok[1], &dyn) || !parse_i(tok[2], &lim) || !parse_i(tok[3], &off) || off < 0 || off > 7 ||
+  if (n != 20 || !parse_i(tok[1], &dyn) || !parse_i(tok[2], &lim) || !parse_i(tok[3], &off) || off < 0 || off > 7 ||
+      !parse_i(tok[4], &actn) || actn <= off || actn > 8 ||
       (lim != 0 && lim != 1)) { printf("bad-op\n"); return; }
-  for (int i = 0; i < 15; i++) if (!parse_f(tok[4 + i], &f[i])) { printf("bad-op\n"); return; }
+  for (int i = 0; i < 15; i++) if (!parse_f(tok[5 + i], &f[i])) { printf("bad-op\n"); return; }
   double h = f[0], act = f[1], adot = f[2], vel = f[3], lo = f[4], hi = f[5];
   static mjModel fm; static mjData fd; memset(&fm, 0, sizeof fm); memset(&fd, 0, sizeof fd);
-  int dyntype[1] = {dyn}, actadr[1] = {0}, outadr[1] = {0};
+  int dyntype[1] = {dyn}, actadr[1] = {0}, outadr[1] = {0}, actnum[1] = {actn};
   mjtByte actlimited[1] = {(mjtByte)lim};
   double dynprm[mjNDYN] = {0}, gainprm[mjNGAIN] = {0}, biasprm[mjNBIAS] = {0}, actrange[2] = {lo, hi};
   dynprm[0] = f[6]; dynprm[2] = f[7]; dynprm[5] = f[8]; dynprm[7] = f[9]; dynprm[8] = f[10];
@@ -199,7 +200,7 @@ static void op_na(char** tok, int n) {
   actv[off] = act;
   fm.nactuator = 1; fm.nu = 1; fm.na = 8; fm.nout = 1;
   fm.opt.timestep = h;
-  fm.actuator_dyntype = dyntype; fm.actuator_actadr = actadr; fm.actuator_outadr = outadr;
+  fm.actuator_dyntype = dyntype; fm.actuator_actadr = actadr; fm.actuator_actnum = actnum; fm.actuator_outadr = outadr;
   fm.actuator_actlimited = actlimited; fm.actuator_dynprm = dynprm; fm.actuator_gainprm = gainprm;
   fm.actuator_biasprm = biasprm; fm.actuator_actrange = actrange;
   fd.act = actv; fd.actuator_velocity = avel;
